@@ -1,5 +1,8 @@
 import GmQuic.Lemmas.Flow
 import GmQuic.Lemmas.FlowStream
+import GmQuic.Lemmas.FlowRcvr
+import GmQuic.Lemmas.FlowRecverObs
+import GmQuic.Lemmas.FlowSender
 /-!
 C11 — flow-control limits are never exceeded and violations are detected.
 Property theorems only (helper lemmas: `GmQuic/Lemmas/Flow*.lean`).
@@ -294,5 +297,184 @@ theorem over_limit_detected : OverLimitDetected true := by
 
 example : ((RecvHalf.run true 100 [.rx 0 40 false]).rx true 5000 20 true).2 = .flowControl ∧
     ((RecvHalf.run true 100 [.rx 0 40 false]).rx true 60 40 true).2 = .fresh 60 := by decide
+
+
+/-! ## Part 4 — the whole receiving state machine: `stop()`, reader drop, RESET_STREAM (run `C11s`)
+
+`AOp` histories: peer STREAM frames, application reads (`poll_read` and `poll_next`), `Reader::stop`, dropping the `Reader`, RESET_STREAM
+from the peer.  `fixed = true` is the current tree (FIN-limit fix 36fc566 in); `rfix` is whether
+`Recv::recv_reset` compares the final size with the stream limit (current tree: it does not). -/
+
+/-- Data beyond the advertised stream limit is refused after EVERY history of frames, reads, `stop()`,
+reader drop and resets, as long as the stream is still known to the endpoint (`Recv` / `SizeKnown`;
+once all data or a RESET_STREAM was received the stream has left the input set and frames for it are
+ignored, RFC 9000 §3.2). -/
+def OverLimitDetectedAll (fixed rfix : Bool) : Prop :=
+  ∀ (w : Nat) (ops : List AOp) (off len : Nat) (fin : Bool),
+    let r := Rcvr.run fixed rfix w ops
+    r.live = true → off + len > r.half.msd → ∀ n, (r.rx fixed off len fin).2 ≠ .fresh n
+
+theorem over_limit_detected_all (rfix : Bool) : OverLimitDetectedAll true rfix := by
+  intro w ops off len fin r hl ho n
+  have hi : r.Inv := Rcvr.inv_foldl rfix ops (Rcvr.mk0 w) (Rcvr.inv_mk0 w)
+  obtain ⟨hr, hd⟩ := (Rcvr.live_iff r).mp hl
+  rw [Rcvr.rx_obs true r off len fin hr]
+  exact RecvHalf.rx_over r.half off len fin hi.bnd hd ho n
+
+example : let r := Rcvr.run true false 100 [.rx 0 40 false, .stop 7, .dropReader, .rx 40 10 false]
+    r.live = true ∧ r.stopped = some 7 ∧ r.half.msd = 100 ∧ (r.rx true 90 11 false).2 = .flowControl ∧
+    (r.rx true 90 11 true).2 = .flowControl ∧ (r.rx true 90 10 false).2 = .fresh 50 := by decide
+
+/-- The application's own actions never change what the peer is allowed to send nor what is charged to
+the connection: the answer to any frame, the resulting half and the resulting charge are the same
+whether or not `stop(code)` was called / the `Reader` was dropped just before. -/
+theorem limit_enforcement_ignores_stop (fixed : Bool) (r : Rcvr) (code off len : Nat) (fin : Bool) :
+    ((r.stop code).1.rx fixed off len fin).2 = (r.rx fixed off len fin).2 ∧
+    ((r.stop code).1.rx fixed off len fin).1.half = (r.rx fixed off len fin).1.half ∧
+    ((r.stop code).1.rx fixed off len fin).1.charged = (r.rx fixed off len fin).1.charged := by
+  obtain ⟨h1, h2, h3⟩ := r.stop_fields code
+  exact Rcvr.rx_congr fixed r _ h1 h2 h3 off len fin
+
+theorem limit_enforcement_ignores_reader_drop (fixed rfix : Bool) (r : Rcvr) (off len : Nat) (fin : Bool) :
+    ((r.step fixed rfix .dropReader).rx fixed off len fin).2 = (r.rx fixed off len fin).2 ∧
+    ((r.step fixed rfix .dropReader).rx fixed off len fin).1.charged = (r.rx fixed off len fin).1.charged := by
+  have := Rcvr.rx_congr fixed r (r.step fixed rfix .dropReader) rfl rfl rfl off len fin
+  exact ⟨this.1, this.2.2⟩
+
+/-- Advertised stream limits never decrease — over histories with application actions and resets, for
+both trees. -/
+theorem advertised_monotone_all (fixed rfix : Bool) (w : Nat) (ops : List AOp) :
+    let h := (Rcvr.run fixed rfix w ops).half
+    h.advertised.Pairwise (· ≤ ·) ∧ (∀ a ∈ h.advertised, h.init ≤ a) ∧
+      h.msd = h.advertised.getLast?.getD h.init := by
+  have hi := Rcvr.halfInv_foldl fixed rfix ops (Rcvr.mk0 w) (RecvHalf.inv_mk0 w)
+  exact ⟨hi.mono, fun a ha => (hi.adv a ha).1, hi.last⟩
+
+/-- Connection-level accounting of one stream, for every history (current tree, either `rfix`): as long
+as no RESET_STREAM was accepted, the total handed to `on_new_rcvd` is exactly the largest offset
+received (each byte once, nothing for retransmissions, the same after `stop()`), and that is within the
+stream's own advertised limit; after a RESET_STREAM it is at most the final size; `stop()` sends at
+most one STOP_SENDING. -/
+theorem stream_charge_accounting (rfix : Bool) (w : Nat) (ops : List AOp) :
+    let r := Rcvr.run true rfix w ops
+    (r.rst = none → r.charged = r.half.buf.largest ∧ r.charged ≤ r.half.msd) ∧
+    (∀ f, r.rst = some f → r.charged ≤ f) ∧ r.stops ≤ 1 := by
+  intro r
+  have hi : r.Inv := Rcvr.inv_foldl rfix ops (Rcvr.mk0 w) (Rcvr.inv_mk0 w)
+  refine ⟨fun hr => ⟨hi.chg hr, ?_⟩, hi.chgR, hi.stops.1⟩
+  rw [hi.chg hr]; exact hi.bnd.le_msd
+
+example : let r := Rcvr.run true false 100 [.rx 10 20 false, .stop 3, .rx 0 30 false, .rx 50 10 false, .reset 80]
+    r.charged = 80 ∧ r.rst = some 80 ∧ r.stops = 1 := by decide
+
+/-- A RESET_STREAM whose final size lies beyond the advertised stream limit claims that more was sent
+than allowed (RFC 9000 §4.5: the final size counts against flow control; §4.1: FLOW_CONTROL_ERROR). -/
+def ResetOverLimitDetected (rfix : Bool) : Prop :=
+  ∀ (w : Nat) (ops : List AOp) (final : Nat),
+    let r := Rcvr.run true rfix w ops
+    r.live = true → final > r.half.msd → ∀ n, (r.reset rfix final).2 ≠ .sync n
+
+/-- FALSE of the current tree: limit 100, `RESET_STREAM(final_size = 5000)` is accepted in `Recv` and
+5000 bytes are handed to the connection-level controller. -/
+theorem reset_over_limit_detected_fails : ¬ ResetOverLimitDetected false := by
+  intro h
+  have := h 100 [] 5000 (by decide) (by decide) 5000
+  revert this; decide
+
+/-- What the current tree does guarantee: once the size is known such a reset is a FINAL_SIZE_ERROR, and
+in `Recv` the whole remainder up to the claimed final size is charged to the connection, so the
+connection-level limit still bounds it. -/
+theorem reset_over_limit_detected_partial (rfix : Bool) (w : Nat) (ops : List AOp) (final : Nat) :
+    let r := Rcvr.run true rfix w ops
+    r.rst = none → final > r.half.msd →
+      (∀ fs, r.half.phase = .sizeKnown fs → (r.reset false final).2 = .finalSize) ∧
+      (r.half.phase = .recv →
+        (r.reset false final).2 = .sync (final - r.half.largest) ∧
+        (r.reset false final).1.charged = r.charged + (final - r.half.largest)) := by
+  intro r hr ho
+  have hi : r.Inv := Rcvr.inv_foldl rfix ops (Rcvr.mk0 w) (Rcvr.inv_mk0 w)
+  have hb := hi.bnd.2
+  constructor
+  · intro fs hph
+    simp only [hph] at hb
+    unfold Rcvr.reset
+    simp only [hr, Option.isSome_none, Bool.false_eq_true, ↓reduceIte, hph]
+    have : final ≠ fs := by omega
+    simp [this]
+  · intro hph
+    simp only [hph] at hb
+    unfold Rcvr.reset
+    simp only [hr, Option.isSome_none, Bool.false_eq_true, ↓reduceIte, hph]
+    have : ¬ final < r.half.largest := by omega
+    simp [this]
+
+theorem reset_over_limit_detected : ResetOverLimitDetected true := by
+  intro w ops final r hl ho n
+  have hi : r.Inv := Rcvr.inv_foldl true ops (Rcvr.mk0 w) (Rcvr.inv_mk0 w)
+  obtain ⟨hr, hd⟩ := (Rcvr.live_iff r).mp hl
+  have hb := hi.bnd.2
+  unfold Rcvr.reset
+  simp only [hr, Option.isSome_none, Bool.false_eq_true, ↓reduceIte]
+  cases hph : r.half.phase with
+  | recv =>
+    simp only
+    split
+    · simp
+    · simp only [true_and, ho, ↓reduceIte]; simp
+  | sizeKnown fs =>
+    simp only [hph] at hb
+    have : final ≠ fs := by omega
+    simp only [ne_eq, this, not_false_eq_true, ↓reduceIte]; simp
+  | done => exact absurd hph hd
+
+example : ((Rcvr.run true true 100 [.rx 0 40 false, .stop 1]).reset true 101).2 = .flowControl ∧
+    ((Rcvr.run true true 100 [.rx 0 40 false, .stop 1]).reset true 100).2 = .sync 60 := by decide
+
+/-! ## Part 5 — the whole sending state machine: `cancel()` / STOP_SENDING (run `C11s`) -/
+
+/-- No STREAM frame ends beyond the limit granted by the peer — over histories that also contain
+`Writer::cancel` and STOP_SENDING from the peer. -/
+theorem stream_limit_respected_all (w : Nat) (ops : List TOp) :
+    let s := Sndr.run w ops
+    (∀ r ∈ s.half.emitted, r.2 ≤ grantedOfT w ops) ∧ s.half.maxData ≤ grantedOfT w ops := by
+  intro s
+  have hi := (Sndr.inv_foldl ops (Sndr.init w) (Sndr.inv_init w)).half
+  have hg : s.half.granted = grantedOfT w ops := Sndr.granted_foldl ops (Sndr.init w)
+  rw [← hg]
+  refine ⟨?_, hi.maxGr⟩
+  intro r hr
+  have h1 := (hi.emHi r hr).2; have h2 := hi.hiMax; have h3 := hi.maxGr
+  exact Nat.le_trans h1 (Nat.le_trans h2 h3)
+
+/-- The final size announced in a RESET_STREAM (cancel or STOP_SENDING, in any sending state) is exactly
+what this stream has charged to the connection-level credit — so both endpoints account the same number
+of bytes for a reset stream —, covers every frame ever emitted and is within the peer's stream limit. -/
+theorem reset_final_size_is_charge (w : Nat) (ops : List TOp) (f : Nat) :
+    let s := Sndr.run w ops
+    s.rst = some f →
+      f = s.half.charged ∧ (∀ r ∈ s.half.emitted, r.2 ≤ f) ∧ f ≤ grantedOfT w ops := by
+  intro s hr
+  have hi := Sndr.inv_foldl ops (Sndr.init w) (Sndr.inv_init w)
+  have hg : s.half.granted = grantedOfT w ops := Sndr.granted_foldl ops (Sndr.init w)
+  have hf := hi.rst f hr
+  have h2 := hi.half.hiMax; have h3 := hi.half.maxGr
+  refine ⟨by rw [hf]; exact hi.half.chg.symm, ?_, ?_⟩
+  · intro r hr'; rw [hf]; exact (hi.half.emHi r hr').2
+  · rw [← hg, hf]; exact Nat.le_trans h2 h3
+
+/-- After the reset the stream emits nothing and charges nothing, whatever happens next
+(writes, MAX_STREAM_DATA for the terminal stream, further cancels, assembly attempts). -/
+theorem no_emission_after_reset (s : Sndr) (hr : s.rst.isSome = true) (ops : List TOp) :
+    (∀ a b fin avail, s.emit a b fin avail = none) ∧
+    (ops.foldl Sndr.step s).half.charged = s.half.charged ∧
+    (ops.foldl Sndr.step s).half.emitted = s.half.emitted ∧ (ops.foldl Sndr.step s).rst = s.rst := by
+  obtain ⟨e1, e2, e3⟩ := Sndr.foldl_frozen ops s hr
+  refine ⟨?_, e2, e3, e1⟩
+  intro a b fin avail
+  simp only [Sndr.emit, hr, ↓reduceIte]
+
+example : let s := Sndr.run 50 [.half (.write 80), .half (.emit 0 30 false 100), .cancel,
+      .half (.msd 500), .half (.emit 30 50 false 100), .stopSending]
+    s.rst = some 30 ∧ s.half.charged = 30 ∧ s.half.emitted = [(0, 30)] := by decide
 
 end GmQuic.StreamWindow
